@@ -1,0 +1,74 @@
+//! Verification hooks. Only compiled with `--cfg deadpool_verif`.
+//!
+//! A *schedule point* is a named place in the pool code, always outside of
+//! any lock region, where an external handler may delay or park the calling
+//! thread. Without a handler a point is a single relaxed load.
+
+use std::sync::{
+    atomic::{AtomicBool, Ordering},
+    Arc, RwLock,
+};
+
+/// Handler invoked at every schedule point with the name of the point and
+/// the address of the pool it belongs to.
+pub type Handler = Arc<dyn Fn(&'static str, usize) + Send + Sync>;
+
+static ENABLED: AtomicBool = AtomicBool::new(false);
+static HANDLER: RwLock<Option<Handler>> = RwLock::new(None);
+
+/// Installs (or removes) the global schedule point handler.
+pub fn set_handler(handler: Option<Handler>) {
+    let mut guard = HANDLER.write().unwrap_or_else(|e| e.into_inner());
+    ENABLED.store(handler.is_some(), Ordering::SeqCst);
+    *guard = handler;
+}
+
+/// Schedule point.
+#[inline]
+pub(crate) fn point(name: &'static str, addr: usize) {
+    if !ENABLED.load(Ordering::Relaxed) {
+        return;
+    }
+    let handler = HANDLER
+        .read()
+        .unwrap_or_else(|e| e.into_inner())
+        .as_ref()
+        .cloned();
+    if let Some(handler) = handler {
+        handler(name, addr);
+    }
+}
+
+/// Snapshot of the internals of a managed pool.
+#[derive(Clone, Copy, Debug, Default, PartialEq, Eq, Hash)]
+pub struct ManagedSnapshot {
+    /// Permits currently available in the semaphore.
+    pub permits: usize,
+    /// `Slots::size`
+    pub size: usize,
+    /// `Slots::max_size`
+    pub max_size: usize,
+    /// Length of the idle queue.
+    pub idle: usize,
+    /// `PoolInner::users`
+    pub users: usize,
+    /// Whether the semaphore is closed.
+    pub closed: bool,
+}
+
+/// Snapshot of the internals of an unmanaged pool.
+#[derive(Clone, Copy, Debug, Default, PartialEq, Eq, Hash)]
+pub struct UnmanagedSnapshot {
+    /// Permits of the object semaphore.
+    pub permits: usize,
+    /// Permits of the size semaphore.
+    pub size_permits: usize,
+    /// `PoolInner::size`
+    pub size: usize,
+    /// `PoolInner::available`
+    pub available: isize,
+    /// Length of the queue.
+    pub queue: usize,
+    /// Whether the pool is closed.
+    pub closed: bool,
+}
